@@ -40,7 +40,7 @@ ASSUMPTIONS = ["values are compared numerically after JSON parsing (a lookup can
                "stream-steps comes last in a partition (it runs to the stop time)"]
 FAULT_KINDS = []
 PROBES = ["decimal_dt", "fractional_start", "mixed_partition", "per_step_settings", "equation_subset_without_dependencies", "two_scenarios_different_runspecs",
-          "stream_in_partition", "points_step_setting", "runspecs_in_session_settings", "flat_results_requested"]
+          "stream_in_partition", "points_step_setting", "runspecs_in_session_settings", "flat_results_requested", "two_scenarios_in_one_session", "scenario_level_constants"]
 EXHAUSTIVE = {"quick": False, "thorough": False}
 
 STARTS = [0.0, 1.0, 2.5]
@@ -105,15 +105,23 @@ def generate(spec):
         eqs = ["half"]                                   # a converter on a stock, neither the stock nor its flow is watched
     else:
         eqs = rng.sample(els, rng.randint(1, len(els)))
+    consts = {}
+    if rng.random() < 0.5:
+        # scenario-level constants (two or more where the template has them): they are applied when a session sets up its simulation
+        for c in rng.sample(T.CONSTANTS[template], min(len(T.CONSTANTS[template]), rng.choice([1, 2, 3]))):
+            consts[c] = rng.choice([0.5, 1.5, 2.0, 3.0, 5.0])
     case = {"property": PROPERTY,
-            "config": {"template": template, "start": start, "stop": stop, "dt": dt},
+            "config": {"template": template, "start": start, "stop": stop, "dt": dt, "constants": consts},
             "equations": eqs, "partition": gen_partition(rng, nsteps), "step_settings": {}, "second": None}
     if rng.random() < 0.45:
         case["step_settings"] = gen_step_settings(rng, template, nsteps)
     if rng.random() < 0.3:
         d2 = rng.choice([x for x in [1.0, 0.5, 0.25] if x != dt] or [0.5])
         case["second"] = {"start": start, "dt": d2, "stop": start + d2 * rng.choice([3, 6, 9])}
-    if rng.random() < 0.25:
+    if rng.random() < 0.35:
+        # a sibling scenario of the same manager takes part in the same session; step settings address only the first one
+        case["twin"] = {"constants": {c: rng.choice([0.25, 1.0, 4.0]) for c in rng.sample(T.CONSTANTS[template], 1)}}
+    if rng.random() < 0.25 and not case.get("twin"):
         # the session itself re-parameterises the scenario's run specs (begin_session settings)
         d3 = rng.choice([x for x in [1.0, 0.5, 0.25, 0.2] if x != dt])
         s3 = rng.choice([start, start, 0.0, 1.0])
@@ -128,6 +136,13 @@ def generate(spec):
 
 def dec_grid(cfg):
     return [T.label(t) for t in T.grid(cfg["start"], cfg["stop"], cfg["dt"])]
+
+
+def scenario_dicts(case):
+    d = {SCN: ({"constants": dict(case["config"].get("constants") or {})} if case["config"].get("constants") else {})}
+    if case.get("twin"):
+        d["twin"] = {"constants": dict(case["twin"]["constants"])}
+    return d
 
 
 def session_cfg(case):
@@ -148,11 +163,11 @@ def num(x):
     return float(x)
 
 
-def series_from_step(body):
+def series_from_step(body, scn=SCN):
     """step result {'smA': {'base': {eq: {t: v}}}} -> {eq: {float t: v}}"""
     out = {}
     try:
-        for eq, tv in body[MGR][SCN].items():
+        for eq, tv in body[MGR][scn].items():
             out[eq] = {float(t): v for t, v in tv.items()}
     except Exception:
         return None
@@ -174,16 +189,17 @@ def settings_for(case, k):
     return {MGR: {SCN: copy.deepcopy(s)}} if s else {}
 
 
-def reference(case):
-    """closed-form trajectory with piecewise-constant parameters (clause iii)"""
+def reference(case, which=SCN):
+    """closed-form trajectory with piecewise-constant parameters (clause iii); which="twin": the sibling scenario,
+    which never receives step settings"""
     cfg = session_cfg(case)
     tpl = cfg["template"]
     grid = dec_grid(cfg)
-    c0, p0, i0 = T.merged(tpl)
+    c0, p0, i0 = T.merged(tpl, constants=case["config"].get("constants") if which == SCN else case["twin"]["constants"])
     cur_c, cur_p = dict(c0), {k: [list(x) for x in v] for k, v in p0.items()}
     params = []
     for k in range(len(grid)):
-        s = case["step_settings"].get(str(k))
+        s = case["step_settings"].get(str(k)) if which == SCN else None
         if s:
             cur_c = dict(cur_c)
             cur_c.update(s.get("constants", {}))
@@ -223,7 +239,7 @@ def batch_channels(case, res, log):
     eqs = case["equations"]
     grid = dec_grid(cfg)
     wcfg = {"bases": [{"template": cfg["template"], "start": cfg["start"], "stop": cfg["stop"], "dt": cfg["dt"]}],
-            "managers": [{"name": MGR, "base": 0, "scenarios": {SCN: {}}}]}
+            "managers": [{"name": MGR, "base": 0, "scenarios": scenario_dicts(case)}]}
     if case.get("second"):
         s2 = case["second"]
         wcfg["managers"][0]["scenarios"]["other"] = {"runspecs": {"starttime": s2["start"], "stoptime": s2["stop"], "dt": s2["dt"]}}
@@ -280,15 +296,19 @@ def session_channel(case, res, log, want, ref):
     eqs = case["equations"]
     grid = dec_grid(session_cfg(case))
     wcfg = {"bases": [{"template": cfg["template"], "start": cfg["start"], "stop": cfg["stop"], "dt": cfg["dt"]}],
-            "managers": [{"name": MGR, "base": 0, "scenarios": {SCN: {}}}]}
+            "managers": [{"name": MGR, "base": 0, "scenarios": scenario_dicts(case)}]}
     w = ScenarioWorld(wcfg, log, res)
     b = w.setup()
+    scns = [SCN, "twin"] if case.get("twin") else [SCN]
+    if case.get("twin"):
+        res.probe("two_scenarios_in_one_session")
     if case.get("begin_runspecs"):
         res.probe("runspecs_in_session_settings")
-        b.begin_session(scenarios=[SCN], scenario_managers=[MGR], equations=list(eqs), settings=begin_settings(case))
+        b.begin_session(scenarios=list(scns), scenario_managers=[MGR], equations=list(eqs), settings=begin_settings(case))
     else:
-        b.begin_session(scenarios=[SCN], scenario_managers=[MGR], equations=list(eqs), starttime=cfg["start"])
+        b.begin_session(scenarios=list(scns), scenario_managers=[MGR], equations=list(eqs), starttime=cfg["start"])
     acc = {}
+    acc_twin = {}
     k = 0
     guard = 0
     while guard < len(grid) + 5:
@@ -301,9 +321,21 @@ def session_channel(case, res, log, want, ref):
             res.violate("C09.i-equation-missing", {"channel": "session/run_step", "step": k, "result": str(out)[:160]})
             return
         merge(acc, part)
+        if case.get("twin"):
+            pt = series_from_step(out, "twin")
+            if pt is None:
+                res.violate("C09.i-equation-missing", {"channel": "session/run_step (sibling scenario)", "step": k, "result": str(out)[:160]})
+                return
+            merge(acc_twin, pt)
         k += 1
         res.sim_units += 1
     ser = finish(acc)
+    if case.get("twin"):
+        rt = reference(case, "twin")
+        wt = {eq: {t: rt[kk][eq] for kk, t in enumerate(grid)} for eq in eqs}
+        if not check_series(res, "session/run_step (sibling scenario that got no step settings)", finish(acc_twin), grid, wt, eqs,
+                            clause_values="C09.iii-step-setting-effect"):
+            return
     if not check_series(res, "session/run_step", ser, grid, ref if case["step_settings"] else want, eqs,
                         clause_values="C09.iii-step-setting-effect" if case["step_settings"] else "C09.ii-value-differs"):
         return
@@ -343,7 +375,7 @@ def rest_channel(case, res, log, want, ref):
     cfg = case["config"]
     eqs = case["equations"]
     grid = dec_grid(cfg)
-    model = {"template": cfg["template"], "start": cfg["start"], "stop": cfg["stop"], "dt": cfg["dt"], "managers": {MGR: {SCN: {}}}}
+    model = {"template": cfg["template"], "start": cfg["start"], "stop": cfg["stop"], "dt": cfg["dt"], "managers": {MGR: scenario_dicts(case)}}
     with ServerWorld({"model": model, "adapter": None, "threads": "serial"}, log, res) as w:
         w.boot()
         r = w.post("/run", {"scenario_managers": [MGR], "scenarios": [SCN], "equations": list(eqs)})
@@ -479,6 +511,8 @@ def execute(case):
             res.probe("points_step_setting")
     if not set(T.ELEMENTS[cfg["template"]]) <= set(case["equations"]):
         res.probe("equation_subset_without_dependencies")
+    if len(cfg.get("constants") or {}) >= 2:
+        res.probe("scenario_level_constants")
     with patches.installed(threads="serial"):
         want = batch_channels(case, res, log)
         if want is not None and not res.violations:
